@@ -45,14 +45,14 @@ def lexer_obligations(run) -> typing.List[smt.Obligation]:
         run.add_function(f"nunavut/jinja/jinja2/lexer.py:Lexer.__init__ root rule [{label}]")
         # the real alternatives of every (?P<..._begin>...) group, split at top level; those that mention '*' after a start
         # delimiter are the auto-indent alternatives -- each is translated from ITS OWN text
-        alts = []
-        for m in re.finditer(r"\(\?P<(\w+_begin)>", pat):
-            i = m.end()
-            depth, j, cur, parts, in_cls = 1, i, "", [], False
-            while j < len(pat) and depth > 0:
-                ch = pat[j]
+        MARK = r"\\\{(?:\\?%|\\\{|\\?#)\\\*"
+
+        def group_end(text, i):
+            """index of the ')' closing the group whose content starts at i"""
+            depth, j, in_cls = 1, i, False
+            while j < len(text):
+                ch = text[j]
                 if ch == "\\":
-                    cur += pat[j:j + 2]
                     j += 2
                     continue
                 if in_cls:
@@ -64,23 +64,59 @@ def lexer_obligations(run) -> typing.List[smt.Obligation]:
                 elif ch == ")":
                     depth -= 1
                     if depth == 0:
-                        break
-                elif ch == "|" and depth == 1:
+                        return j
+                j += 1
+            return len(text)
+
+        def split_top(text):
+            parts, cur, depth, j, in_cls = [], "", 0, 0, False
+            while j < len(text):
+                ch = text[j]
+                if ch == "\\":
+                    cur += text[j:j + 2]
+                    j += 2
+                    continue
+                if in_cls:
+                    in_cls = ch != "]"
+                elif ch == "[":
+                    in_cls = True
+                elif ch == "(":
+                    depth += 1
+                elif ch == ")":
+                    depth -= 1
+                elif ch == "|" and depth == 0:
                     parts.append(cur)
                     cur = ""
                     j += 1
                     continue
                 cur += ch
                 j += 1
-            parts.append(cur)
-            for a in parts:
-                if re.search(r"\\\{(?:\\%|\\\{|\\#)\\\*", a):
-                    alts.append((m.group(1), a))
+            return parts + [cur]
+
+        def marker_leaves(text):
+            """innermost alternatives that mention the marker"""
+            out = []
+            for alt in split_top(text):
+                if not re.search(MARK, alt):
+                    continue
+                inner = [(m.end(), group_end(alt, m.end())) for m in re.finditer(r"\((?:\?:|\?P<\w+>)?", alt)]
+                nested = [alt[i:j] for i, j in inner if re.search(MARK, alt[i:j]) and len(split_top(alt[i:j])) > 1]
+                if nested:
+                    for g in nested[:1]:
+                        out += marker_leaves(g)
+                else:
+                    out.append(alt)
+            return out
+
+        alts = []
+        for m in re.finditer(r"\(\?P<(\w+_begin)>", pat):
+            content = pat[m.end():group_end(pat, m.end())]
+            alts += [(m.group(1), a) for a in marker_leaves(content)]
         if not alts:
             run.undecide(f"lexer[{label}]: no auto-indent alternative found in the root rule {pat[:120]!r} (binding failure)")
             continue
         for gname, a in alts:
-            dm = re.search(r"\\\{(\\%|\\\{|\\#)", a)
+            dm = re.search(r"\\\{(\\?%|\\\{|\\?#)", a)
             delim = dm.group(0).replace("\\", "")
             try:
                 lang = pyre.to_reglan(a, rx.flags & ~re.MULTILINE & ~re.DOTALL)
